@@ -28,8 +28,12 @@ RULE = ("laws: 2..7 argument lists per case (0..6 values each, every type i c r 
         "too; all ways when there are at most 48.  Every run has one block with every pair of 55 boundary bit patterns of f and d (zeros, denormals, "
         "1-ulp neighbours, max, inf, NaNs) as single values.  Thorough adds an exhaustive block: every list of length <= 3 over a "
         "9-value universe (820 lists, all 5.5e8 triples via bit sets) and every list of length <= 2 over 27 values.  "
+        "Half of all cases carry #alias=1|2|3: blob data and strings of all lists of the case then share storage in the "
+        "harness (prefix views with the same data pointer, overlapping views data+k, suffix views of strings, interned "
+        "equal contents); every rtosc_arg_val_t is pre-filled with a byte pattern that differs from slot to slot (padding, "
+        "unselected union members); cmp(x,x)/eq(x,x) are called on the same object.  "
         "Non-trivial = the case has a tie between differently written lists, a proper prefix, an array or a compressed run.")
-TRUSTED = ["harness/h_C16.cpp builds rtosc_arg_val_t arrays (exact-size heap copies) from the case text and calls "
+TRUSTED = ["harness/h_C16.cpp builds rtosc_arg_val_t arrays (exact-size heap copies, or shared storage under #alias) from the case text and calls "
            "rtosc_arg_vals_eq/_cmp (opt = NULL), rtosc_arg_val_itr_init/_get/_next and rtosc_avmessage",
            "tools/props/C16.py: expansion of compressed runs, numeric/lexicographic/bytewise order of single values, "
            "OSC encoding of a flat list (the independent Spec oracle)",
@@ -500,9 +504,20 @@ def gen_laws(rng, dist):
         else:
             toks.append(plain(l))
     bump(dist, "laws:k=%d" % k)
+    al = alias_field(rng, dist)
     bump(dist, "laws:lists-with-array", sum(1 for l in lists if has_array(l)))
     bump(dist, "laws:empty-lists", sum(1 for l in lists if not l))
-    return "laws " + " ".join(show(t) for t in toks)
+    return "laws " + " ".join(show(t) for t in toks) + al
+
+def alias_field(rng, dist):
+    """half of the cases let blob data and strings of all their lists share storage
+    (harness only; the model compares contents)"""
+    if rng.random() < 0.5:
+        bump(dist, "alias=0 (own buffers)")
+        return ""
+    k = rng.choice([1, 1, 2, 3])
+    bump(dist, "alias=%d" % k)
+    return " #alias=%d" % k
 
 def gen_comp(rng, dist, want):
     vals = rnd_list(rng)
@@ -520,7 +535,7 @@ def gen_comp(rng, dist, want):
     bump(dist, "comp:with-delta-range", 1 if any(t.endswith(":1") and t.startswith("R:") for v in vs for t in v) else 0)
     bump(dist, "comp:with-repeated-array", 1 if any(v[i].startswith("R:") and v[i].endswith(":0") and v[i + 1].startswith("a:")
                                                    for v in vs for i in range(len(v) - 1)) else 0)
-    return "comp %s %s %s" % (rng.choice(ADDRS).hex(), show(btok), " ".join(show(v) for v in vs))
+    return "comp %s %s %s" % (rng.choice(ADDRS).hex(), show(btok), " ".join(show(v) for v in vs)) + alias_field(rng, dist)
 
 def all_lists(univ, maxlen):
     out = []
@@ -563,6 +578,12 @@ def gen(rng, tier, dist):
     else:
         out.append("laws " + " ".join(show(plain(l)) for l in all_lists(U9, 2)))
         bump(dist, "laws:exhaustive-blocks", 1)
+    # the same blocks with shared storage, and all blobs / strings of the universe against each other
+    out.append(out[-1] + " #alias=1")
+    singles = [v for t in "bsS" for v in UNIV[t]]
+    for k in (1, 2, 3):
+        out.append("laws " + " ".join(tok(v) for v in singles) + " #alias=%d" % k)
+    bump(dist, "laws:alias-blocks", 4)
     return out
 
 # ---------------------------------------------------------------------------
@@ -687,7 +708,7 @@ def nontrivial(case, impl):
     body = case.split(" ", 1)[1]
     if "R:" in body or "a:" in body: return True
     if case.startswith("laws ") and impl and "cmp=" in impl:
-        f = body.split(" ")
+        f = [x for x in body.split(" ") if x and not x.startswith("#")]
         cm = impl.split(" ")[0][4:]
         k = len(f)
         if len(cm) == k * k:
@@ -703,13 +724,14 @@ def classify(case, impl, failure):
 def minimise(case, impl, failure, run):
     """laws: keep only the lists the failure names"""
     if not case.startswith("laws "): return case, impl, failure
-    lists = case.split(" ")[1:]
+    extra = "".join(" " + x for x in case.split(" ")[1:] if x.startswith("#"))
+    lists = [x for x in case.split(" ")[1:] if x and not x.startswith("#")]
     k = len(lists)
     if k <= 3: return case, impl, failure
     kind = failure.split(":")[0]
     for n in (1, 2, 3):
         for sub in itertools.combinations(range(k), n):
-            c2 = "laws " + " ".join(lists[i] for i in sub)
+            c2 = "laws " + " ".join(lists[i] for i in sub) + extra
             o2 = run([c2])[0]
             f2 = spec_check(c2, o2)
             if f2 and f2.split(":")[0] == kind:
